@@ -78,4 +78,24 @@ Proof.
         apply (HG jh j z ch Hjh Hc Hch). }
   cbn [length] in Len. rewrite map_length in Len. lia.
 Qed.
+
+(* the Dijkstra loop of the reference variant always returns *)
+Hypothesis Rnodup : forall i, NoDup (map fst (row rows i)).
+Hypothesis Lookup : forall i j c, In (j, c) (row rows i) -> cost_at (rowget rows i) j <> None.
+
+Theorem aug_loop_totalR : FinV n v -> (r < n)%nat -> free n y r -> forall fuel s mu,
+  K r n rows y v s mu -> Fd r rows v (g_d s) -> Gd n rows y v (g_d s) (g_ready s) ->
+  (n < fuel + length (g_ready s))%nat ->
+  exists res, aug_loop fuel r n PInf rows y v s = Some res.
+Proof.
+  intros FV Hr Fr. pose proof HInv as [Lx [Ly [_ SL]]].
+  induction fuel as [|f IH]; intros s mu HK HF HG Hf.
+  - exfalso. destruct (Bounds_lengths n s (Marks_Bounds r n s (k_marks r n rows y v s mu HK))) as [_ B]. lia.
+  - destruct (aug_iterR r n rows x y v Rfin Rnodup HInv FV f s mu HK HF HG)
+      as [[s' [j1 E]]|[[[ES EM]|[jh [Hjh [Asg EC]]]]|[s3 [m3 [K3 [F3 [G3 [L3 E]]]]]]]].
+    + eauto.
+    + exfalso. exact (rebuild_nonempty s mu FV Hr Fr HK HF HG ES EM).
+    + exfalso. destruct (SL jh _ Hjh eq_refl Asg) as [_ [_ [c [Hc _]]]]. exact (Lookup _ _ _ Hc EC).
+    + rewrite E. apply (IH s3 m3 K3 F3 G3). lia.
+Qed.
 End TotalR.
